@@ -52,6 +52,8 @@ func (v *VMap) Valid(src interface{}) error {
 
 	tv := RemoveValuePtr(reflect.ValueOf(src))
 	switch tv.Kind() {
+	case reflect.Invalid:
+		return errors.New("src \"" + reflect.TypeOf(src).String() + "\" is nil")
 	case reflect.Array, reflect.Slice:
 		l := tv.Len()
 		for i := 0; i < l; i++ {
@@ -64,13 +66,14 @@ func (v *VMap) Valid(src interface{}) error {
 
 // validate 验证执行体
 func (v *VMap) validate(prefix string, tv reflect.Value) *VMap {
-	if tv.Type().Key().Kind() != reflect.String {
-		v.errBuf.WriteString(GetJoinFieldErr("", prefix, "map key must string"))
+	tv = RemoveValuePtr(tv)
+	if tv.Kind() != reflect.Map {
+		v.errBuf.WriteString(GetJoinFieldErr("", prefix, "val must map"))
 		return v
 	}
 
-	if tv.Kind() != reflect.Map {
-		v.errBuf.WriteString(GetJoinFieldErr("", prefix, "val must map"))
+	if tv.Type().Key().Kind() != reflect.String {
+		v.errBuf.WriteString(GetJoinFieldErr("", prefix, "map key must string"))
 		return v
 	}
 
